@@ -4,8 +4,9 @@ set -u
 PATCH="$1"; shift
 cd /repo || exit 2
 if [ -n "$(git status --porcelain)" ]; then echo "REFUSING: /repo working tree not clean"; exit 2; fi
-if ! git apply --3way "$PATCH" 2>/tmp/apply.err && ! git apply "$PATCH" 2>>/tmp/apply.err; then echo "PATCH DOES NOT APPLY"; cat /tmp/apply.err; git checkout -- . ; git reset -q; exit 3; fi
-git reset -q
+if git apply --check "$PATCH" 2>/tmp/apply.err; then git apply "$PATCH"
+elif git apply --3way "$PATCH" 2>>/tmp/apply.err && [ -z "$(git diff --name-only --diff-filter=U)" ]; then git reset -q
+else echo "PATCH DOES NOT APPLY"; head -5 /tmp/apply.err; git reset -q --hard HEAD; exit 3; fi
 trap 'cd /repo && git checkout -- . && git clean -fdq' EXIT
 for ID in "$@"; do
   OUT=$(cd /verif && timeout 900 ./check.sh "$ID" quick 2>&1); RC=$?
